@@ -151,6 +151,9 @@ class Endpoint(object):
         tb = ctypes.create_string_buffer(32)
         n = sh.vf_io_after_fail_types(tb)
         self.after_fail_types = list(tb.raw[:n])
+        sb = ctypes.create_string_buffer(20000)
+        n = sh.vf_t13_seen(sb, 20000)
+        self.t13_seen = sb.raw[:min(n, 20000)]
         self.t13_calls = sh.vf_t13_calls()
         self.t13_applied = sh.vf_t13_applied()
         self.t13_last_len = sh.vf_t13_last_len()
